@@ -194,6 +194,9 @@ def classify(proc):
     out = proc.out
     if proc.timed_out or "panic: test timed out" in out:
         return "infra", "timeout after %.0fs" % proc.wall
+    if "VERIF-INCONCLUSIVE" in out:
+        m = re.search(r"VERIF-INCONCLUSIVE:? *(.*)", out)
+        return "infra", "harness inconclusive: " + (m.group(1)[:200] if m else "")
     if proc.rc == 0:
         if proc.spec.get("kind", "rapid") == "rapid":
             passed = sum(int(x) for x in re.findall(r"\[rapid\] OK, passed (\d+) tests", out))
